@@ -112,6 +112,12 @@ Children setter: a value de-duplicated with `_unique_tasks` before the re-parent
 its LAST position); selective removals that are followed by the complete clear are a pre-step (UNDECIDED, was a wrong `does not
 end up in the given order`).  Not decided: remove_all rewritten as one recursive pass that tests each task when it is visited
 (C16-r82) - whether that differs from `query first, then remove` depends on predicates that look at tree state.
+
+Round 9: relation events on paths that can only end in a raise (rollback in `except ..: ..; raise`) are not effects of a call that
+returns and are dropped (`events`); the publish callback may also write non-relation fields (caches); template-method hooks of a
+shared facade base class are followed for the analysed subclass (`A.hook_store`: `self._assign(v)` == `owner.prop = v`,
+`A.hook_value`: `self._current()` == its return expression).  sort: when no sort compares the attribute value itself although a
+`type(key) is str` path reaches a sort, the single-attribute case is refuted (sorted through the joined str() form).
 """
 from __future__ import annotations
 
@@ -228,8 +234,24 @@ def events(A, f: Func) -> List[Ev]:
                     hit = True
             if hit:
                 out.append(Ev('call', ci.node, cfg.node_containing(ci.node), ci.name, ci=ci))
-    # `setattr(x, 'children', v)` with a literal relation property name is the property store `x.children = v`
     from sa.types import CallInfo
+    # `self._assign(v)` where the analysed class implements the hook as `owner.<property> = v`: the property store itself
+    for n in walk_no_nested(f.node):
+        if isinstance(n, ast.Expr) and isinstance(n.value, ast.Call):
+            hs = A.hook_store(f, n.value)
+            if hs is None:
+                continue
+            recv, prop, val = hs
+            q = f"wbs.WBS.{prop}.setter" if prop == 'roots' else f"task.Task.{prop}.setter"
+            if not A.prog.has_func(q):
+                continue
+            tgt = ast.copy_location(ast.Attribute(value=recv, attr=prop, ctx=ast.Store()), n.value)
+            st = ast.copy_location(ast.Assign(targets=[tgt], value=val), n)
+            ast.fix_missing_locations(st)
+            out = [e for e in out if e.node is not n.value]
+            out.append(Ev('setter', tgt, cfg.node_of(n) or cfg.node_containing(n.value), prop,
+                          ci=CallInfo(tgt, [A.prog.func(q)], 'setter', True, 'Task', prop), stmt=st))
+    # `setattr(x, 'children', v)` with a literal relation property name is the property store `x.children = v`
     for n in walk_no_nested(f.node):
         if isinstance(n, ast.Expr) and isinstance(n.value, ast.Call) and isinstance(n.value.func, ast.Name) and \
                 n.value.func.id == 'setattr' and len(n.value.args) == 3 and not n.value.keywords:
@@ -678,6 +700,10 @@ class _GetattrFold(ast.NodeTransformer):
 
     def visit_Call(self, n):
         n = self.generic_visit(n)
+        if self.a is not None and self.f is not None and self.a.cur_cls.get(self.f.qual):
+            hv = self.a.hook_value(self.f, n)
+            if hv is not None:
+                return ast.copy_location(hv, n)
         if isinstance(n.func, ast.Name) and n.func.id == 'getattr' and len(n.args) == 2 and not n.keywords:
             nm = n.args[1] if isinstance(n.args[1], ast.Constant) else (
                 self.a.class_const(self.f, n.args[1]) if self.a is not None else None)
@@ -694,7 +720,9 @@ class _GetattrFold(ast.NodeTransformer):
 
 def _fold_getattr(e, a=None, f=None):
     """`getattr(x, 'name')` with a literal name (or a class-level constant of the analysed class) reads `x.name`"""
+    hooks = a is not None and f is not None and bool(a.cur_cls.get(f.qual))
     if e is None or not any((isinstance(n, ast.Call) and isinstance(n.func, ast.Name) and n.func.id == 'getattr') or
+                            (hooks and isinstance(n, ast.Call) and isinstance(n.func, ast.Attribute) and not n.args) or
                             (isinstance(n, ast.IfExp) and same(n.body, n.orelse)) for n in ast.walk(e)):
         return e
     import copy
@@ -760,6 +788,57 @@ class A:
                 self._x.pop(m.qual, None)
                 return m
         return self.prog.func(q)
+
+    def hook_method(self, f, call):
+        """`self.M(..)` inside a method analysed for a concrete subclass (A.cur_cls): the implementation of M in THAT class
+        (template-method pattern: base class calls hooks its subclasses implement); None when f has no class context"""
+        cls = self.cur_cls.get(f.qual)
+        if cls is None or not (isinstance(call, ast.Call) and isinstance(call.func, ast.Attribute) and self.is_self(f, call.func.value)):
+            return None
+        m = self.prog.find_method(cls, unmangle(call.func.attr))
+        if m is None or m is f or m.kind != 'method' or not isinstance(m.node, ast.FunctionDef):
+            return None
+        return m
+
+    @staticmethod
+    def hook_body(m):
+        return [st for st in m.node.body if not (isinstance(st, ast.Expr) and isinstance(st.value, ast.Constant))]
+
+    def hook_store(self, f, call):
+        """hook `def M(self, v): <self-expr>.<relation property> = v` called as `self.M(X)`:  (receiver expression in terms of
+        the caller's self, property, X)  or None"""
+        m = self.hook_method(f, call)
+        if m is None or len(m.params) != 2 or len(call.args) != 1 or call.keywords:
+            return None
+        body = self.hook_body(m)
+        if len(body) != 1 or not isinstance(body[0], ast.Assign) or len(body[0].targets) != 1:
+            return None
+        tg, v = body[0].targets[0], body[0].value
+        if not (isinstance(tg, ast.Attribute) and tg.attr in REL_PROPS and isinstance(v, ast.Name) and v.id == m.params[1]):
+            return None
+        if any(isinstance(n, ast.Name) and n.id not in (m.self_name,) for n in ast.walk(tg.value)):
+            return None
+        import copy
+        recv = _Subst({m.self_name: ast.Name(id=f.self_name, ctx=ast.Load())}).visit(copy.deepcopy(tg.value))
+        return recv, tg.attr, call.args[0]
+
+    def hook_value(self, f, call):
+        """hook `def M(self): return <expr over self>` called as `self.M()`: the expression in terms of the caller's self"""
+        m = self.hook_method(f, call)
+        if m is None or len(m.params) != 1 or call.args or call.keywords:
+            return None
+        body = self.hook_body(m)
+        if len(body) != 1 or not isinstance(body[0], ast.Return) or body[0].value is None:
+            return None
+        bound = set()
+        for n in ast.walk(body[0].value):
+            if isinstance(n, ast.comprehension):
+                bound |= names_in(n.target)
+        if any(isinstance(n, ast.Name) and isinstance(n.ctx, ast.Load) and n.id != m.self_name and n.id not in bound
+               for n in ast.walk(body[0].value)):
+            return None
+        import copy
+        return _Subst({m.self_name: ast.Name(id=f.self_name, ctx=ast.Load())}).visit(copy.deepcopy(body[0].value))
 
     def class_const(self, f, e):
         """value of `self.NAME` / `Cls.NAME` when NAME is a constant assigned in the body of the class f is analysed for (or of
@@ -3862,6 +3941,17 @@ def sort_stable(a: A, ctx):
                                                f"(`self.__setter(self._list)` missing on some path): the task's children keep the old order")
                 return
             # no second sort / reversal after it on the same path is already excluded (mutate:reverse refuted)
+        kinds_all = {k1 for _, _, kk in sorts for k1 in kk.split('+')}
+        if 'single' not in kinds_all:
+            # no sort compares the attribute VALUE itself; is a plain attribute name nevertheless let through to a sort?
+            for b in cfg.nodes:
+                if b.kind == 'branch' and b.polarity and not isinstance(b.test, (ast.For, ast.AsyncFor)) and \
+                        any((match(f"type({KEY}) is str", at) or match(f"isinstance({KEY}, str)", at) or match(f"type({KEY}) == str", at)) and pol
+                            for at, pol in facts.split_conj(b.test, True)) and any(cfg.can_reach(b, e.cn) for e, _, _ in sorts):
+                    o.refute(f, sorts[0][0].node, 'single key', f"{what}: a single attribute name (`{src(b.test)}`) is sorted through the "
+                             f"key function for attribute LISTS (the '-'.join of str() forms) instead of by the attribute's own value: "
+                             f"numbers and dates are then ordered as text (10 before 9)")
+                    return
         if not a.must_pass(o, f, [e for e, _, _ in sorts], [], what):
             return
         for e, inplace, kk in sorts:
@@ -4618,6 +4708,11 @@ def frame(a: A, ctx):
 
     def run(o):
         mset = {q for q in ALLM}
+        for q in ALLM:      # facade methods inherited from a shared base class stand for the documented ones
+            try:
+                mset.add(a.fn(q).qual)
+            except Exception:
+                pass
         for q in ALLM:
             if q.endswith('Task._detach') and not a.prog.has_func(q):
                 o.site(None, None, 'no Task._detach in this tree')
